@@ -44,6 +44,7 @@ type L2Genesis struct {
 	Balances      map[string]sdk.Coins
 	Opchild       *opchildtypes.GenesisState
 	CurrencyPairs []string // e.g. "BTC/USD"
+	ExtraMetadata []string // denoms that already have bank metadata at genesis (besides the native token)
 	AppState      map[string]json.RawMessage
 	InitialHeight int64
 }
@@ -364,6 +365,9 @@ func (n *L2) initChain(gen *L2Genesis) {
 		// the native gas token has bank metadata, as on any real chain
 		bg.DenomMetadata = append(bg.DenomMetadata, banktypes.Metadata{Base: "umin", Display: "min", Symbol: "MIN", Name: "min token",
 			DenomUnits: []*banktypes.DenomUnit{{Denom: "umin", Exponent: 0}, {Denom: "min", Exponent: 6}}})
+		for _, d := range gen.ExtraMetadata {
+			bg.DenomMetadata = append(bg.DenomMetadata, banktypes.Metadata{Base: d, Display: d, Symbol: d, Name: d, DenomUnits: []*banktypes.DenomUnit{{Denom: d, Exponent: 0}}})
+		}
 		packed, err := authtypes.PackAccounts(accs)
 		if err != nil {
 			panic(err)
